@@ -159,6 +159,10 @@ class Server:
 _SERVERS = {}
 
 
+def threads_key(argv):
+    return ",".join(a for a in argv if a.startswith("--threads") or a == "--no-threads")
+
+
 def run_execution(cfg, prefix, workdir):
     """cfg: dict(wild, argv (list; '{out}' is replaced), env, cwd, regions, timeout, server)."""
     if cfg.get("server", True):
@@ -175,7 +179,9 @@ def run_execution_server(cfg, prefix, workdir):
             os.unlink(p)
         except OSError:
             pass
-    key = (os.getpid(), cfg["wild"])
+    # The rayon pool of a server process is sized by the first link it runs: one server per
+    # distinct --threads value.
+    key = (os.getpid(), cfg["wild"], threads_key(cfg["argv"]))
     srv = _SERVERS.get(key)
     if srv is None:
         srv = _SERVERS[key] = Server(cfg["wild"])
